@@ -41,7 +41,8 @@ def run_one(path):
             s = s.replace(e["find"], e["replace"], e.get("count", 1))
             open(p, "w").write(s)
         env = dict(os.environ, VERIF_REPO=scratch, VERIF_OUT=scratch + "/.out", VERIF_MUTANT="1", VERIF_CACHE=scratch + "/.cache",
-                   VERIF_RS_TARGET=os.environ.get("VERIF_MUT_RS_TARGET", "/tmp/ts-verif-mut-rs-target"))
+                   VERIF_RS_TARGET=os.environ.get("VERIF_MUT_RS_TARGET", "/tmp/ts-verif-mut-rs-target"),
+                   VERIF_WITNESS_TARGET="/tmp/ts-verif-mut-witness-target")
         if c_only and RS_FACTS[0]:
             env["VERIF_RS_FACTS_DIR"] = RS_FACTS[0]     # C-only mutation: Rust facts are those of the real tree
         if rust:
@@ -102,6 +103,7 @@ def main():
             print("%-8s %s/%s  %s" % (r[2], r[1], r[0], r[3]))
     bad = [r for r in res if r[2] not in ("KILLED",)]
     shutil.rmtree(os.environ.get("VERIF_MUT_RS_TARGET", "/tmp/ts-verif-mut-rs-target"), ignore_errors=True)
+    shutil.rmtree("/tmp/ts-verif-mut-witness-target", ignore_errors=True)
     print("mutants: %d total, %d killed, %d not killed" % (len(res), len(res) - len(bad), len(bad)))
     out = os.environ.get("VERIF_MUTANT_SUMMARY")
     if out:
